@@ -1,6 +1,6 @@
 (* C01 — events reach exactly the matching handlers, once, using the live handler set. *)
 From Coq Require Import List ZArith Arith.
-From Circ Require Import Model.Handlers Proofs.HandlersP.
+From Circ Require Import Model.Handlers Proofs.HandlersP Model.ClassHandlers Proofs.ClassHandlersP.
 Import ListNotations.
 
 (* For every pool of components, and every history of addHandler / removeHandler /
@@ -39,4 +39,25 @@ Example C01_ex_detach :
   map d_invoked (fst (fst (run (fresh_world [(0, CStar); (1, CStar)])
     [OAdd 1 h1; OFire 1 0 0 CStar; OFlush 1; ORegister 1 0; OAdd 1 h2; ODetach 1 [1];
      OFire 1 1 0 CStar; OFlush 1]))) = [[1]; [2; 1]].
+Proof. vm_compute. reflexivity. Qed.
+
+(* ---- which handlers an instance has: class hierarchies of any depth ----
+   A handler definition is in force iff no more derived class of the MRO redefines the
+   same attribute as a handler with override=True (the documented semantics of @handler).
+   [collect] models BaseComponent.__new__ + __init__'s getmembers loop. *)
+Theorem C01_classes_sound : forall mro d, In d (collect mro) -> in_force mro d.
+Proof. exact collect_sound. Qed.
+Print Assumptions C01_classes_sound.
+
+Theorem C01_classes_complete : forall mro d, uniq_attrs mro -> in_force mro d ->
+  exists d', In d' (collect mro) /\ m_fid d' = m_fid d.
+Proof. exact collect_complete. Qed.
+Print Assumptions C01_classes_complete.
+
+(* non-vacuity: A defines foo; B(A) adds nothing; C(B) redefines foo without override:
+   both functions are handlers of a C instance (the pre-fix code dropped A's) *)
+Example C01_ex_three_levels :
+  let fooA := {| m_attr := 0; m_fid := 10; m_handler := true; m_override := false; m_names := [0] |} in
+  let fooC := {| m_attr := 0; m_fid := 12; m_handler := true; m_override := false; m_names := [0] |} in
+  handlers_for [[fooC]; []; [fooA]] 0 = [12; 10].
 Proof. vm_compute. reflexivity. Qed.
